@@ -62,6 +62,7 @@ def run(repo, dirs, seconds, work, seed=1, shards=8):
     open(os.path.join(mod, "go.mod"), "w").write(gomod)
     shutil.copy(os.path.join(ROOT, "harness", "go.sum"), os.path.join(mod, "go.sum"))
     ch = json.load(open(os.path.join(mod, "changed.json")))
+    ch["changed"] = ch.get("changed") or []
     res["changed"] = ch["changed"]
     res["info"] = ch["info"]
     coverpkg = "verifdiff," + ",".join(MOD + "/" + d for d in dirs)
